@@ -458,3 +458,77 @@ func DS() Step {
 
 func Fn(name string, args ...Expr) Call { return Call{Local: name, Args: args} }
 func N(v float64) Num                   { return Num{V: v} }
+
+// MapPrefixes returns a copy of e with every namespace prefix (name tests,
+// variable references, function names) rewritten by f.
+func MapPrefixes(e Expr, f func(string) string) Expr {
+	mp := func(p string) string {
+		if p == "" {
+			return ""
+		}
+		return f(p)
+	}
+	var m func(Expr) Expr
+	mcall := func(c Call) Call {
+		out := Call{Prefix: mp(c.Prefix), Local: c.Local}
+		for _, a := range c.Args {
+			out.Args = append(out.Args, m(a))
+		}
+		return out
+	}
+	m = func(e Expr) Expr {
+		switch v := e.(type) {
+		case nil:
+			return nil
+		case Binary:
+			return Binary{Op: v.Op, L: m(v.L), R: m(v.R)}
+		case Neg:
+			return Neg{X: m(v.X)}
+		case Paren:
+			return Paren{X: m(v.X)}
+		case Var:
+			return Var{Prefix: mp(v.Prefix), Local: v.Local}
+		case Call:
+			return mcall(v)
+		case Path:
+			out := Path{Abs: v.Abs}
+			if v.Head != nil {
+				out.Head = m(v.Head)
+			}
+			for _, q := range v.HPred {
+				out.HPred = append(out.HPred, m(q))
+			}
+			for _, s := range v.Steps {
+				ns := s
+				ns.Test.Prefix = mp(s.Test.Prefix)
+				ns.Preds = nil
+				for _, q := range s.Preds {
+					ns.Preds = append(ns.Preds, m(q))
+				}
+				if s.Fn != nil {
+					c := mcall(*s.Fn)
+					ns.Fn = &c
+				}
+				out.Steps = append(out.Steps, ns)
+			}
+			return out
+		}
+		return e
+	}
+	return m(e)
+}
+
+// UsesAxis reports whether any step uses the given axis.
+func UsesAxis(e Expr, axis string) bool {
+	found := false
+	Walk(e, func(x Expr) {
+		if p, ok := x.(Path); ok {
+			for _, s := range p.Steps {
+				if s.Fn == nil && s.Axis == axis {
+					found = true
+				}
+			}
+		}
+	})
+	return found
+}
